@@ -3,6 +3,11 @@ use serde::Serialize;
 use serde_json::Value;
 use std::collections::{BTreeMap, BTreeSet};
 
+/// Calls on which the model left the domain of a primitive whose `laws` field (Oracle.v) is stated for a
+/// total extension (filled by prims.rs).  `Report::finish` turns a non-empty list into a broken
+/// correspondence, so a model that leaves the domain is never silent.
+pub static LEFT_DOMAIN: std::sync::Mutex<Vec<String>> = std::sync::Mutex::new(Vec::new());
+
 #[derive(Serialize, Default)]
 pub struct Finding {
     /// short machine-matchable class, e.g. "v2.local.encrypt-roundtrip"
@@ -84,6 +89,14 @@ impl Report {
     }
     pub fn finish(mut self, out: Option<&str>) {
         self.distinct_nontrivial = self.distinct.len() as u64;
+        let left = LEFT_DOMAIN.lock().unwrap_or_else(|e| e.into_inner()).clone();
+        if !left.is_empty() {
+            self.disagreement(
+                "oracle.left-domain",
+                "the model called a primitive outside its domain (Oracle.v: laws are stated for a total extension)".into(),
+                serde_json::json!({ "calls": left }),
+            );
+        }
         self.violations.truncate(50);
         self.disagreements.truncate(50);
         let text = serde_json::to_string_pretty(&self).unwrap();
